@@ -198,6 +198,18 @@ func (u *Upstream) waitToSendAllDataPointsAndReceiveAllAck(ctx context.Context) 
 		return errors.Errorf("failed to flush chunk: %w", err)
 	}
 
+	// the wait below is woken by acknowledgements only: wake it as well when the caller's context, the close
+	// timeout or the stream itself ends, so that Close never blocks beyond its bounds
+	go func() {
+		select {
+		case <-parentCtx.Done():
+		case <-ctx.Done():
+		}
+		u.receivedAck.L.Lock()
+		u.receivedAck.Broadcast()
+		u.receivedAck.L.Unlock()
+	}()
+
 	u.receivedAck.L.Lock()
 	var err error
 	var remaining map[uint32]DataPointGroups
